@@ -171,6 +171,10 @@ namespace sqf::parser::preprocessor
                         switch (c)
                         {
                         case '\\':
+                            if (escaped)
+                            { // a backslash followed by another backslash is just a backslash
+                                outputString.push_back('\\');
+                            }
                             escaped = true;
                             break;
                         case '\n':
